@@ -85,7 +85,6 @@ struct FetchLog {
 }
 
 trait Env: Sync {
-    fn variant(&self) -> &'static str;
     /// Prepares for a fresh validation run.
     fn reset(&self);
     /// `load(k)` on the real code; returns a canonical result.
@@ -142,8 +141,6 @@ impl RsyncEnv {
 }
 
 impl Env for RsyncEnv {
-    fn variant(&self) -> &'static str { "rsync" }
-
     fn reset(&self) {
         let _ = std::fs::remove_file(&self.log);
         let _ = std::fs::remove_dir_all(self.cache.join("rsync"));
@@ -219,8 +216,6 @@ impl RrdpEnv {
 }
 
 impl Env for RrdpEnv {
-    fn variant(&self) -> &'static str { "rrdp" }
-
     fn reset(&self) {
         let _ = self.server.take_log();
         self.seen.lock().unwrap().clear();
